@@ -1011,8 +1011,8 @@ class QasmOutput:
         else:
             q_regs = ",".join(q_regs)
 
-        if q_args:
-            if isinstance(q_args, list):
+        if q_args is not None:
+            if isinstance(q_args, (list, tuple, np.ndarray)):
                 q_args = ",".join([str(arg) for arg in q_args])
             return "{}({}) {};".format(q_name, q_args, q_regs)
         else:
